@@ -68,47 +68,71 @@ func ruleSchedShard(r *core.Run) {
 		}
 	}
 	for _, f := range r.P.SortedFuncs(r.ConsensusFuncs()) {
-		if r.P.IsGenerated(f) || helpers[f] {
+		if r.P.IsGenerated(f) || helpers[f] || len(f.Blocks) == 0 {
 			continue
+		}
+		if r.P.Transparent(f) && len(r.Owners(f)) > 0 {
+			continue // walked in place under the known functions that call it
 		}
 		res := r.Resolver(f)
-		starts, _ := periodStores(f)
-		for _, b := range f.Blocks {
-			for _, ins := range b.Instrs {
-				if c, ok := ins.(ssa.CallInstruction); ok {
-					_, cs := res.CalleeName(c.Common())
-					for _, g := range cs {
-						if helpers[g] {
-							starts = append(starts, c)
+		// typestate walk (through helpers outside the vocabulary, wherever the period store and the scheduling call
+		// have ended up): after a period start, every success return of f has passed SetExpiredShardBlock
+		anchor := f
+		t := &tsRule{r: r,
+			events: func(g *ssa.Function, ins ssa.Instruction, T func(ssa.Value) string) []string {
+				switch x := ins.(type) {
+				case *ssa.Store:
+					if fp := fieldPath(x.Addr); fp == "order/types.Shard.CreatedAt" || fp == "order/types.Shard.Duration" {
+						return []string{"start"}
+					}
+				case ssa.CallInstruction:
+					name, cs := r.Resolver(g).CalleeName(x.Common())
+					if name == fSetExpShard {
+						return []string{"sched"}
+					}
+					var ev []string
+					for _, h := range cs {
+						if helpers[h] {
+							ev = append(ev, "start")
+						} else if h != g && !r.P.Transparent(h) && alwaysCalls(r, h, fSetExpShard, 0) {
+							ev = append(ev, "sched")
 						}
 					}
+					return ev
+				case *ssa.Return:
+					if g == anchor && successReturnIn(r, anchor, x.Block()) {
+						return []string{"success"}
+					}
 				}
-			}
-		}
-		if len(starts) == 0 {
+				return nil
+			},
+			step: func(st uint8, ev string) (uint8, string) {
+				switch ev {
+				case "start":
+					return 1, ""
+				case "sched":
+					return 0, ""
+				case "success":
+					if st == 1 {
+						return st, "unscheduled"
+					}
+				}
+				return st, ""
+			}}
+		tr := t.run(f, 0)
+		if tr.counts["start"] == 0 {
 			continue
 		}
-		sched := blocksCalling(r, f, fSetExpShard)
-		ck := &guard.Checker{P: r.P, Fn: f, Res: res}
-		succ := map[*ssa.BasicBlock]bool{}
-		for _, b := range f.Blocks {
-			if isReturnBlock(b) && successReturnIn(r, f, b) {
-				succ[b] = true
+		n++
+		key := core.Key("T-sched-shard", r.P.Name(f), "period (re)started => release scheduled")
+		if tr.bad == "" {
+			r.Discharge("T-sched-shard", key, r.P.FuncPos(f), "every success path after the shard's CreatedAt/Duration are set passes SetExpiredShardBlock")
+		} else {
+			pos := r.P.FuncPos(f)
+			if tr.badAt != nil && tr.badAt.Pos().IsValid() {
+				pos = r.P.Pos(tr.badAt.Pos())
 			}
-		}
-		done := map[*ssa.BasicBlock]bool{}
-		for _, st := range starts {
-			if done[st.Block()] {
-				continue
-			}
-			done[st.Block()] = true
-			n++
-			key := core.Key("T-sched-shard", r.KeyName(f), fmt.Sprintf("period (re)started#%d => release scheduled", n))
-			if ok, w := ck.MustRespond(st.Block(), succ, sched, nil); ok {
-				r.Discharge("T-sched-shard", key, r.P.Pos(st.Pos()), "every success path after the shard's CreatedAt/Duration are set passes SetExpiredShardBlock")
-			} else {
-				r.Violate("T-sched-shard", key, r.P.Pos(st.Pos()), r.P.Name(f)+" sets a shard's CreatedAt/Duration and can succeed without scheduling its release: the shard, its collateral and its income never end", w...)
-			}
+			r.Violate("T-sched-shard", key, pos, r.P.Name(f)+" sets a shard's CreatedAt/Duration and can succeed without scheduling its release: the shard, its collateral and its income never end")
 		}
 		// the scheduled height is the end of that shard's own period
 		for i, c := range callsIn(r, f, fSetExpShard) {
@@ -285,16 +309,16 @@ func checkC11(r *core.Run) {
 	ruleSchedDelete(r)
 	// T-lifetime
 	if fn := r.Func("T-lifetime", "sao/keeper.msgServer.Complete"); fn != nil {
-		res := r.Resolver(fn)
+		// both calls may sit in a helper extracted from Complete: their arguments are compared in Complete's vocabulary
 		var sched, ext string
-		for _, c := range callsIn(r, fn, fSetExpShard) {
-			if t := callTerm(res, c); t != nil && len(t.Args) == 2 {
-				sched = normT(t.Args[1].String())
+		for _, dc := range deepCalls(r, fn, fSetExpShard) {
+			if at := dc.ArgTerms(r); len(at) == 2 {
+				sched = at[1]
 			}
 		}
-		for _, c := range callsIn(r, fn, fExtendMeta) {
-			if t := callTerm(res, c); t != nil && len(t.Args) == 2 {
-				ext = normT(t.Args[1].String())
+		for _, dc := range deepCalls(r, fn, fExtendMeta) {
+			if at := dc.ArgTerms(r); len(at) == 2 {
+				ext = at[1]
 			}
 		}
 		key := core.Key("T-lifetime", "sao/keeper.msgServer.Complete", "model extended to the shard's scheduled end")
@@ -828,12 +852,18 @@ func rulePartition(r *core.Run) {
 	}
 	res := r.Resolver(fn)
 	// the kept list: value stored to Order.Shards that is not an append to it
-	var kept []ssa.Value
-	for _, b := range fn.Blocks {
-		for _, ins := range b.Instrs {
-			if st, ok := ins.(*ssa.Store); ok && fieldPath(st.Addr) == "order/types.Order.Shards" {
-				if isCollected(r, st.Val) {
-					kept = append(kept, st.Val)
+	type keptV struct {
+		fn *ssa.Function
+		v  ssa.Value
+	}
+	var kept []keptV
+	for _, fr := range frames(r, fn) {
+		for _, b := range fr.Fn.Blocks {
+			for _, ins := range b.Instrs {
+				if st, ok := ins.(*ssa.Store); ok && fieldPath(st.Addr) == "order/types.Order.Shards" {
+					if isCollected(r, st.Val) {
+						kept = append(kept, keptV{fr.Fn, st.Val})
+					}
 				}
 			}
 		}
@@ -873,8 +903,8 @@ func rulePartition(r *core.Run) {
 			app[s.App.Block()] = true
 		}
 	}
-	for _, v := range kept {
-		note(listOriginOf(r, fn, v))
+	for _, kv := range kept {
+		note(listOriginOf(r, kv.fn, kv.v))
 	}
 	for _, x := range removed {
 		note(listOriginOf(r, x.fn, x.v))
